@@ -188,4 +188,150 @@ theorem drain_keeps {par : Nat → Sess} {P : Nat → Nat → Nat → Prop} (hp 
           show txC s mid (_ :: l.out) = _
           simp [txC, hne]
 
+theorem keeps_setS_keep (s mid : Nat) (l : L) (s' : Nat) (se : Sess) (h : se.delayq = (l.getS s').delayq) :
+    Keeps s mid l (l.setS s' se) := by
+  have hd := delayq_setS_keep l s' s se h
+  refine ⟨?_, ?_, fun _ => rfl⟩
+  · simp only [Phi, setS_now]; rw [hd]; rfl
+  · simp only [Psi]; rw [hd]; exact Nat.le_refl _
+
+theorem keeps_emit_other (s mid : Nat) (l : L) (o : Out) (h1 : nackW s mid o = 0)
+    (h2 : ∀ t s' m' k c, o ≠ .tx t s' m' k c) : Keeps s mid l (l.emit o) := by
+  refine ⟨?_, Nat.le_refl _, fun _ => txC_cons_other s mid o l.out h2⟩
+  simp only [Phi]
+  show nackC s mid (o :: l.out) + _ + _ = _
+  simp only [nackC, h1, Nat.zero_add]
+  rfl
+
+theorem connected_keeps {par : Nat → Sess} {P : Nat → Nat → Nat → Prop} (hp : GPar par) (s mid : Nat) (l : L)
+    (s' : Nat) (hi : FInv False par P l) : Keeps s mid l (connected l s') := by
+  obtain ⟨ca, dq, hg, hle, hdq⟩ := hi.sess s'
+  have e : ({ (l.getS s') with est := true } : Sess) = { par s' with conActive := ca, delayq := dq } := by
+    rw [hg]
+    have := (hp s').1
+    cases hps : par s'
+    rw [hps] at this
+    simp_all
+  unfold connected
+  simp only []
+  have hk : Keeps s mid l (l.setS s' { (l.getS s') with est := true }) := keeps_setS_keep s mid l s' _ rfl
+  refine Keeps.trans hk ?_
+  rw [e]
+  exact drain_keeps hp s mid _ _ s' ⟨hi.base, gsess_setS hi.sess s' ca dq hle hdq, hi.nodes, hi.pend, hi.outs⟩
+
+theorem release_keeps {par : Nat → Sess} {P : Nat → Nat → Nat → Prop} (hp : GPar par) (s mid : Nat) (l : L)
+    (s' : Nat) (hi : FInv False par P l) : Keeps s mid l (release l s') := by
+  obtain ⟨ca, dq, hg, hle, hdq⟩ := hi.sess s'
+  unfold release
+  simp only []
+  split
+  · exact Keeps.refl _ _ _
+  · have hk : Keeps s mid l (l.setS s' { (l.getS s') with conActive := (l.getS s').conActive - 1 }) :=
+      keeps_setS_keep s mid l s' _ rfl
+    have h1 : FInv False par P (l.setS s' { (l.getS s') with conActive := (l.getS s').conActive - 1 }) := by
+      rw [hg]
+      exact ⟨hi.base, gsess_setS hi.sess s' (ca - 1) dq (by omega) hdq, hi.nodes, hi.pend, hi.outs⟩
+    split
+    · exact Keeps.trans hk (connected_keeps hp s mid _ s' h1)
+    · exact hk
+
+/-- `coap_retransmit` of a popped node: it comes back (re-queued, or as its NACK) -/
+theorem retransmit_keeps {par : Nat → Sess} {P : Nat → Nat → Nat → Prop} (hp : GPar par) (s mid : Nat) (l : L)
+    (n : Node) (hi : FInv False par P l) (hn : NodeOk par P n) :
+    Phi s mid (retransmit l n) = Phi s mid l + (if n.sess = s ∧ n.mid = mid then 1 else 0) ∧
+    Psi s mid (retransmit l n) ≤ Psi s mid l + (if n.sess = s ∧ n.mid = mid then 1 else 0) ∧
+    (Psi s mid l = 0 → ¬ (n.sess = s ∧ n.mid = mid) → txC s mid (retransmit l n).out = txC s mid l.out) := by
+  obtain ⟨hcon, htok, hT, hcnt, h64, hP⟩ := hn
+  obtain ⟨ca, dq, hg, hle, hdq⟩ := hi.sess n.sess
+  obtain ⟨hest, hopen, hns, h256⟩ := hp n.sess
+  have hnowR := retransmit_now l n
+  by_cases hc : n.cnt < (par n.sess).maxRtx
+  · have hle2 : n.timeout * 2 ^ (n.cnt + 1) ≤ n.timeout * 2 ^ (par n.sess).maxRtx :=
+      Nat.mul_le_mul_left _ (Nat.pow_le_pow_right (by decide) hc)
+    have hroom : ca - 1 < (par n.sess).nstart := by omega
+    have hres := retransmit_resend l n (by rw [hg]; exact hc) (by rw [hg]; exact hest) (by rw [hg]; exact hroom)
+      (by omega) (by omega) (Or.inr hi.base)
+    have hsess := retransmit_resend_sess l n (by rw [hg]; exact hc) (by rw [hg]; exact hest)
+      (by rw [hg]; exact hroom) (by omega) (by omega) hcon
+    have hpq := pendC_enqueue s mid l.q l.now (n.timeout * 2 ^ (n.cnt + 1)) { n with cnt := n.cnt + 1 }
+      (Or.inr hi.base)
+    have hd : ((retransmit l n).getS s).delayq = (l.getS s).delayq := by
+      have : (retransmit l n).getS s = (l.setS n.sess { (l.getS n.sess) with
+          conActive := ((l.getS n.sess).conActive - 1 + 1) % 256 }).getS s := by
+        simp only [L.getS, hsess]
+      rw [this]
+      exact delayq_setS_keep l n.sess s _ rfl
+    have ho : (retransmit l n).out = Out.tx l.now n.sess n.mid (n.cnt + 1) n.con :: l.out := hres.1
+    have hq : (retransmit l n).q.nodes = (enqueue l.q l.now (n.timeout * 2 ^ (n.cnt + 1)) { n with cnt := n.cnt + 1 }).nodes := by
+      rw [hres.2.2]
+    simp only [Phi, Psi, ho, hq, hd, hpq, nackC_cons_other s mid _ l.out (Or.inr ⟨_, _, _, _, _, rfl⟩)]
+    refine ⟨by omega, by omega, ?_⟩
+    intro _ hne
+    simp [txC, hne]
+  · have hc' : ¬ n.cnt < (l.getS n.sess).maxRtx := by rw [hg]; exact hc
+    have heq : retransmit l n = (release l n.sess).emit (.nack (release l n.sess).now n.sess .retries n.mid true) := by
+      unfold retransmit
+      simp [hc', hcon]
+    rw [heq]
+    have hk := release_keeps hp s mid l n.sess hi
+    have hw : nackW s mid (.nack (release l n.sess).now n.sess .retries n.mid true) =
+        (if n.sess = s ∧ n.mid = mid then 1 else 0) := by simp [nackW, obsM]
+    refine ⟨?_, ?_, ?_⟩
+    · have := hk.phi
+      simp only [Phi] at this ⊢
+      show nackC s mid (_ :: (release l n.sess).out) + pendC s mid (release l n.sess).q.nodes +
+        midC mid ((release l n.sess).getS s).delayq = _
+      simp only [nackC, hw]
+      omega
+    · have := hk.psi
+      simp only [Psi] at this ⊢
+      show pendC s mid (release l n.sess).q.nodes + midC mid ((release l n.sess).getS s).delayq ≤ _
+      omega
+    · intro h0 _
+      show txC s mid (_ :: (release l n.sess).out) = _
+      rw [txC_cons_other _ _ _ _ (by intros; simp)]
+      exact hk.tx h0
+
+theorem dueLoop_keeps {par : Nat → Sess} {P : Nat → Nat → Nat → Prop} (hp : GPar par) (s mid : Nat) :
+    ∀ (f : Nat) (l : L), FInv False par P l → Keeps s mid l (dueLoop f l) := by
+  intro f
+  induction f with
+  | zero => intro l _; exact Keeps.refl _ _ _
+  | succ f ih =>
+    intro l hi
+    cases hn : l.q.nodes with
+    | nil =>
+      have hnd : NothingDue l := by rw [nothingDue_iff]; intro h r hh; rw [hn] at hh; cases hh
+      rw [dueLoop_not_due _ l hnd]; exact Keeps.refl _ _ _
+    | cons hd r =>
+      by_cases hdue : l.q.base + hd.t ≤ l.now
+      · obtain ⟨rest, hpop, _, hloop⟩ := dueLoop_due f l hd r hn hi.base hdue
+        rw [hloop]
+        have hab := absP_popNext (mxOf par) l.q.base l.q.nodes hd rest hpop
+        have hall := all_popNext (nodeOk_tfree par P) l.q.nodes hd rest hpop hi.nodes
+        have hi1 : FInv False par P { l with q := { l.q with nodes := rest } } :=
+          ⟨hi.base, hi.sess, hall.2, fun p hp' => hi.pend p (by rw [hab]; exact List.mem_cons_of_mem _ hp'), hi.outs⟩
+        have hpc := pendC_popNext s mid l.q.nodes hd rest hpop
+        have hr := retransmit_keeps hp s mid _ hd hi1 hall.1
+        have hi2 := (retransmit_finv hp _ hd hi1 (futF _) hall.1 (fun h => h.elim)).1
+        refine Keeps.trans ?_ (ih _ hi2)
+        have e1 : Phi s mid ({ l with q := { l.q with nodes := rest } } : L) +
+            (if hd.sess = s ∧ hd.mid = mid then 1 else 0) = Phi s mid l := by
+          simp only [Phi]
+          show nackC s mid l.out + pendC s mid rest + midC mid (l.getS s).delayq + _ = _
+          omega
+        have e2 : Psi s mid ({ l with q := { l.q with nodes := rest } } : L) +
+            (if hd.sess = s ∧ hd.mid = mid then 1 else 0) = Psi s mid l := by
+          simp only [Psi]
+          show pendC s mid rest + midC mid (l.getS s).delayq + _ = _
+          omega
+        refine ⟨by omega, by omega, ?_⟩
+        intro h0
+        have hne : ¬ (hd.sess = s ∧ hd.mid = mid) := by
+          intro hk; simp only [hk, and_self, if_true] at e2; omega
+        exact hr.2.2 (by omega) hne
+      · have hnd : NothingDue l := by
+          rw [nothingDue_iff]; intro h r' hh; rw [hn] at hh; cases hh; omega
+        rw [dueLoop_not_due _ l hnd]; exact Keeps.refl _ _ _
+
 end Coap.Sched
